@@ -329,7 +329,9 @@ def discharge(vcs, timeout_ms=10000, backends=("z3-api", "cvc5", "z3-api/arith2"
             d = getattr(v, "depth", None)
             d = depth if d is None else d
             v.smt2 = build_query(v, d)
-            tasks.append((v.smt2, int(tmo * getattr(v, "budget", 1)), want_model, list(backends)))
+            # a contract may ask for a multiple of the budget (heavy quantified contexts); capped so that a failing obligation
+            # of such a contract cannot hold a thorough run for tens of minutes
+            tasks.append((v.smt2, int(min(tmo * getattr(v, "budget", 1), max(tmo, 90000))), want_model, list(backends)))
         results = run_tasks(tasks)
         for v, r in zip(todo, results):
             v.status, v.backend, v.model = r["status"], r["backend"], r["model"]
